@@ -174,6 +174,20 @@ func (w *world) iterator() *fun.Iterator[string] {
 	return w.it
 }
 
+// notBad is the filter of the filtered distributors: the specs name rejected items "!...".
+func notBad(v string) bool { return !strings.HasPrefix(v, "!") }
+
+// dist builds the distributor over the channel in one of the equivalent ways.
+func (w *world) dist(op fun.ChanOp[string], nb bool) pubsub.Distributor[string] {
+	switch {
+	case !nb && w.variant%3 == 0:
+		return pubsub.DistributorChannel(w.ch)
+	case w.variant%3 == 1:
+		return pubsub.MakeDistributor(op.Send().Processor(), op.Receive().Producer(), op.Len)
+	}
+	return pubsub.DistributorChanOp(op)
+}
+
 // do performs one method call and reports its result in the vocabulary of ChanCore.  acc collects what a
 // Consume processor saw; items are what a ChanSend.Consume call pushes.
 func (w *world) do(ctx context.Context, meth string, nb bool, val string, items []string, acc *accum) string {
@@ -237,6 +251,25 @@ func (w *world) do(ctx context.Context, meth string, nb bool, val string, items 
 	case "rignore":
 		op.Receive().Ignore(ctx)
 		return "done"
+	case "dsendf":
+		d := w.dist(op, nb).WithInputFilter(notBad)
+		if w.variant%2 == 0 {
+			return errName(d.Send(ctx, val))
+		}
+		return errName(d.Processor()(ctx, val))
+	case "drecvf":
+		d := w.dist(op, nb).WithOutputFilter(notBad)
+		var v string
+		var err error
+		if w.variant%2 == 0 {
+			v, err = d.Receive(ctx)
+		} else {
+			v, err = d.Producer()(ctx)
+		}
+		if err != nil {
+			return zeroed(v, errName(err))
+		}
+		return "v:" + v
 	case "rconsume":
 		err := op.Receive().Consume(func(_ context.Context, v string) error { acc.add(v); return nil }).Run(ctx)
 		return workerName(err) + "|" + acc.join()
